@@ -1,6 +1,7 @@
 import PsycheModel.Lemmas.Climb
 import PsycheModel.ExprSpec
 import PsycheModel.ClimbReal
+import PsycheModel.Lemmas.Rotate
 /-!
 # C06 — Expression trees respect C operator precedence and associativity
 
@@ -99,3 +100,44 @@ namespace PsycheModel.Climb
 example : parse realTbl 40 1 [.atom 0, .op (idx .PlusToken), .atom 1, .op (idx .EqualsToken), .atom 2] = none := by decide
 example : parse realTbl 40 1 [.atom 0, .op (idx .EqualsToken), .atom 1, .op (idx .PlusToken), .atom 2, .op (idx .EqualsToken), .atom 3] = none := by decide
 end PsycheModel.Climb
+
+/-! ## After disambiguation: the re-association of a cast/binary ambiguity kept as a binary expression -/
+namespace PsycheModel.Rotate
+
+/-- **The delivered tree is the one the C grammar derives.**  For every precedence table, every tree `t` the parser builds at
+a cut-off level below all binary operators (what every expression slot provides) around ONE cast/binary ambiguity — which for
+the parser is a single operand, under any number of prefix operators and casts, anywhere in a chain of left-associative
+binary operators of any length and shape —, the three local rules of `Disambiguator::visitMaybeAmbiguousExpression` deliver
+a tree that (1) holds exactly the tokens of `t` in their order, the ambiguity read as `l o r`, (2) has no ambiguity left and
+(3) satisfies the shape conditions of the grammar at every node (`CS`: the conditions `WS` of the climbing theorem, with a
+prefix operator applied to an operand only).  By `pp_injective_on_WS` that shape is unique for the token sequence. -/
+theorem reassociation_is_C (prec : Nat → Nat) (c : Nat) (t : X) (h : PT prec c t) (hc : ∀ o, c ≤ prec o) :
+    CS prec c (fix prec t).1 ∧ seq (fix prec t).1 = seq t := by
+  obtain ⟨hs, _, hf, ht⟩ := fix_inv prec h
+  refine ⟨?_, hs⟩
+  cases hm : (fix prec t).2 with
+  | false => exact (hf hm).1
+  | true =>
+    obtain ⟨o, a, b, heq, hca, hcb, _⟩ := ht hm
+    rw [heq]
+    exact .bin (hc o) (CS_mono prec (by omega) hca) (CS_mono prec (by omega) hcb)
+
+/-- a tree without the ambiguity is left as it is -/
+theorem fix_id_without_ambiguity (prec : Nat → Nat) : ∀ t : X, hasAmb t = false → fix prec t = (t, false)
+  | .atom _, _ => rfl
+  | .amb _ _ _, h => by simp [hasAmb] at h
+  | .un u e, h => by simp [fix, fix_id_without_ambiguity prec e (by simpa [hasAmb] using h)]
+  | .bin p l r, h => by
+    have hh : hasAmb l = false ∧ hasAmb r = false := by simpa [hasAmb] using h
+    simp [fix, fix_id_without_ambiguity prec l hh.1, fix_id_without_ambiguity prec r hh.2]
+
+/-- non-vacuity, with `*` = 0 (level 13), `-` = 1 (level 12), `!` = 7: the parser's tree for `e * ! (a) - b * c` is
+`(e * !AMB) * c`; delivered: `(e * !(a)) - (b * c)` -/
+example :
+    let prec : Nat → Nat := fun o => if o = 0 then 13 else 12
+    let t : X := .bin 0 (.bin 0 (.atom 0) (.un 7 (.amb 1 (.atom 1) (.atom 2)))) (.atom 3)
+    PT prec 1 t ∧ fix prec t = (.bin 1 (.bin 0 (.atom 0) (.un 7 (.atom 1))) (.bin 0 (.atom 2) (.atom 3)), true) := by
+  refine ⟨?_, by decide⟩
+  exact .bin (by decide) (.bin (by decide) .atom (.un rfl (.amb rfl rfl rfl rfl)) rfl) .atom rfl
+
+end PsycheModel.Rotate
